@@ -90,6 +90,11 @@ func (e *errLeaves) val(v ssa.Value, d int, out map[string]bool, seen map[ssa.Va
 				return
 			}
 			if al, ok := u.X.(*ssa.Alloc); ok && al.Referrers() != nil {
+				// the store that reaches this load (a named result spilled because of a defer), when it is unique
+				if sv := localStore(u); sv != nil {
+					e.val(sv, d+1, out, seen)
+					return
+				}
 				for _, ref := range *al.Referrers() {
 					if st, ok := ref.(*ssa.Store); ok && st.Addr == ssa.Value(al) {
 						e.val(st.Val, d+1, out, seen)
